@@ -15,22 +15,23 @@ E2_NOTE = ("trusted base: engine E2 runs real NodeHosts in one process on lni/vf
            "goroutine schedules, fault scripts and crash instants are sampled by a seeded PRNG; a crash drops all unsynced data of the host after its traffic was cut (the property's crash model)")
 
 CLAIMS = {
- 'C01': dict(engine='raftsim', category='exploration', design='DESIGN.md section 4 C01',
+ 'C01': dict(engine='raftsim+clusterrun', category='exploration', design='DESIGN.md section 4 C01',
    technique='runtime monitoring: recorded client history (logical call/return stamps) decided by an exact n log n linearizability oracle for the unique-value append-only-list model, cross-checked with porcupine',
    text=('Every simulated execution records a history of proposals and ReadIndex reads issued on any replica (leader, followers, non-voting) under loss, delay, '
          'reordering, partitions (symmetric, one-way, leader isolation), leader transfers, crashes at step-internal points and restarts - never duplication; '
          'the history is decided exactly against the final per-key lists (unique ids make it unambiguous). Held on the executions explored, not for all schedules.'),
-   note=E1_NOTE + '; the request pipeline of request.go/nodehost.go is exercised by the E2 stages when present'),
- 'C02': dict(engine='raftsim', category='exploration', design='DESIGN.md section 4 C02',
+   note=E1_NOTE + '; second stage (E2 chaos): the same oracle over histories recorded at the public NodeHost API (SyncPropose, Propose+wait, SyncRead, ReadIndex+ReadLocalNode on every replica incl. a non-voting one) of real NodeHosts under a fault script, built with the race detector. ' + E2_NOTE),
+ 'C02': dict(engine='raftsim+clusterrun', category='exploration', design='DESIGN.md section 4 C02',
    technique='runtime monitoring: online invariant monitors with a global view over a deterministic hostile simulation of real raft peers (apply streams, durable logs, commit map, state hashes)',
    text=('After every simulator step: per-replica apply stream gap-free and increasing, first applier fixes (term,type,payload) per index and every later applier must match, '
          'no committed entry overwritten or truncated in any durable log, a leader only advances commit by counting entries of its own term, pairwise log matching, '
-         'equal user/session/membership hashes at equal applied index, final lists prefix-consistent. Message loss, duplication, delay, reordering, crashes and restarts included.'),
-   note=E1_NOTE),
+         'equal user/session/membership hashes at equal applied index, final lists prefix-consistent. Message loss, duplication, delay, reordering, crashes and restarts included. '
+         'E2 learner stage: power loss of a single-voter leader between sending Replicate and persisting, with a non-voting replica listening; both replicas must still agree index by index.'),
+   note=E1_NOTE + '. ' + E2_NOTE),
  'C03': dict(engine='raftsim', category='exploration', design='DESIGN.md section 4 C03',
    technique='runtime monitoring: term->leader map, durable and sent votes per (replica, term), vote-quorum and leader-completeness checks at every LeaderUpdated event of the simulation',
    text=('Every LeaderUpdated event of every replica feeds a single-valued term->leader map; every persisted vote, granted RequestVoteResp and RequestVote feeds a single-valued '
-         '(replica, term)->candidate map that survives restarts; a new leader must have received granted votes from a quorum of its voting members and must hold every entry committed so far. '
+         '(replica, term)->candidate map that survives restarts; a new leader must have received granted votes from a quorum of its voting members and must hold every entry committed so far; no replica campaigns while a committed membership change is not yet applied by it. '
          'Matrix PreVote x CheckQuorum x sizes 1-5 x non-voting/witness joins x membership changes x transfers x crash points.'),
    note=E1_NOTE),
  'C06': dict(engine='raftsim', category='exploration', design='DESIGN.md section 4 C06',
@@ -41,24 +42,25 @@ CLAIMS = {
  'C07': dict(engine='rsmcheck+raftsim', category='exploration', design='DESIGN.md section 4 C07',
    technique='runtime monitoring: differential check of the real rsm.StateMachine membership handling against a reference of the stated rules (E5), plus cross-replica outcome/membership monitors in the simulation (E1)',
    text=('E5: random config-change streams (valid, invalid, ordered/unordered) through the real rsm.StateMachine, every accept/reject and resulting membership compared with a reference written from the statement, also across snapshot cuts. '
-         'E1: per config-change index all replicas must report the same outcome and membership hash; the raft core member sets equal the applied membership; C02/C03 monitors stay armed under concurrent changes and leader failure.'),
+         'E1: per config-change index all replicas must report the same outcome and membership hash; the raft core member sets equal the applied membership; no campaign with a committed, unapplied membership change; C02/C03 monitors stay armed under concurrent changes and leader failure.'),
    note=E1_NOTE),
 
- 'C04': dict(engine='clusterrun', category='fault_enumeration', design='DESIGN.md section 4 C04',
+ 'C04': dict(engine='clusterrun+storecheck', category='fault_enumeration', design='DESIGN.md section 4 C04',
    technique='runtime monitoring with fault injection: durable shadow of every successful SaveRaftState checked against every outgoing vote / vote request / replication ack / heartbeat response in the step worker (hook), power-loss crashes at step-worker points and arbitrary moments with recovery comparison, full power loss with final reads',
    text=('M1: every RequestVote, granted RequestVoteResp, accepting ReplicateResp and HeartbeatResp is checked, in the goroutine that sends it, against the durable shadow (term, vote, entries) of its replica. '
          'M2: hosts lose power (unsynced data dropped) just before / just after SaveRaftState or at arbitrary moments; the reopened log store must dominate the shadow frozen at the crash instant. '
-         'M3: after a power loss of all hosts every proposal reported Completed must be in the final lists. Pebble and Tan. Crash sites are enumerated by kind, crash instants within a site are sampled.'),
+         'M3: after a power loss of all hosts every proposal reported Completed must be in the final lists. Pebble and Tan. Crash sites are enumerated by kind, crash instants within a site are sampled. '
+         'Store half (E3 crash-tan / crash-pebble-plain stages): power loss at every mutating file-system operation of deterministic SaveRaftState workloads; every acknowledged hard state (term, vote, commit), entry and snapshot record must be readable after reopen.'),
    note=E2_NOTE),
- 'C05': dict(engine='rsmcheck', category='exploration', design='DESIGN.md section 4 C05',
+ 'C05': dict(engine='rsmcheck+clusterrun', category='exploration', design='DESIGN.md section 4 C05',
    technique='runtime monitoring: differential check of the real rsm.StateMachine session handling against a reference session/LRU model over random register/propose/retry/acknowledge/unregister streams, with a snapshot twin at every index',
    text=('10k streams per quick run (more clients than the LRU limit): for every entry the model predicts whether the user state machine is called, the result, rejected and ignored flags; '
          'at every index a twin is recovered from a snapshot and must behave identically for the rest of the stream (session hash included).'),
-   note='single replica, single-threaded: leader changes and restarts appear as duplicate placements and snapshot cuts; end-to-end retries over real NodeHosts are not yet covered'),
+   note='E5 is single replica, single-threaded: leader changes and restarts appear as duplicate placements and snapshot cuts. E2 sessions stage: clients with registered sessions retry timed-out proposals with the same series id through any host across leader changes, snapshots, crashes and restarts; unique payload ids make a second application, a wrong cached result or a lost acknowledged write visible in the final lists. ' + E2_NOTE),
  'C08': dict(engine='rsmcheck+clusterrun', category='exploration', design='DESIGN.md section 4 C08',
    technique='runtime monitoring: twin replicas (full replay vs snapshot + suffix) over the real snapshotter and state machine adapters at every cut index; online assertion in the log store wrapper that compaction never passes a recoverable snapshot',
    text=('E5: for random streams and every cut, regular / concurrent / on-disk state machines, with and without compression: user state, sessions, membership, index and term of the recovered twin equal the uninterrupted replica; file-transfer and streamed followers included. '
-         'E2/E1: every RemoveEntriesTo is checked against the recorded snapshot (index and file validity); lagging followers are repaired by snapshot in the chaos and contract workloads.'),
+         'E2 replay stage: chaos lifetimes with frequent snapshots and short logs plus catch-up cycles (followers cut off / crashed until the log they miss is compacted, repaired by file or streamed snapshot while entries keep being applied, a non-voting replica joining from nothing, dwelling PrepareSnapshot); afterwards the state of every replica must equal the replay of the whole committed log (union of the apply records of all state machine incarnations) up to the last entry it holds; every RemoveEntriesTo is checked against the recorded snapshot (index and file validity).'),
    note=E2_NOTE),
  'C09': dict(engine='storecheck', category='exploration', design='DESIGN.md section 4 C09',
    technique='runtime monitoring: model-based differential test of the real log stores (sharded Pebble plain + batched, Tan regular + multiplexed) against a reference logical log after every operation and reopen',
@@ -73,7 +75,8 @@ CLAIMS = {
  'C11': dict(engine='clusterrun', category='exploration', design='DESIGN.md section 4 C11',
    technique='runtime monitoring: instrumented user state machines of all three kinds check the call contract online (interval monitor under its own mutex); the Go race detector is a second oracle through a deliberately unsynchronised field',
    text=('Three shards (regular, concurrent, on-disk) under proposals, stale / linearizable / delayed local reads, periodic and requested snapshots, a lagging follower, StopShard / StopReplica / restart and NodeHost close under load: '
-         'Update indexes strictly increase per incarnation, no forbidden overlap among Update/Sync/PrepareSnapshot/RecoverFromSnapshot/Close (+ Lookup/SaveSnapshot for the plain SM), nothing after Close, on-disk SM never handed an index at or below Open.'),
+         'Update indexes strictly increase per incarnation, no forbidden overlap among Update/Sync/PrepareSnapshot/RecoverFromSnapshot/Close (+ Lookup/SaveSnapshot for the plain SM), nothing after Close, on-disk SM never handed an index at or below Open. '
+         'Catch-up cases add streamed and file snapshots to lagging replicas during continuous writes, periodic Sync, requested and exported snapshots on every replica, with PrepareSnapshot and Sync dwelling 0-2 ms.'),
    note=E2_NOTE + '; race reports are attributed to C11 only if a frame of the instrumented state machine is on a stack'),
  'C12': dict(engine='clusterrun', category='exploration', design='DESIGN.md section 4 C12',
    technique='runtime monitoring: a watcher per accepted request drains its result channel until quiescence; unique payload ids tie results to requests; apply stamps of the instrumented state machine give applied-before-completed; race reports with request.go frames are attributed',
@@ -83,7 +86,7 @@ CLAIMS = {
 
  'C14': dict(engine='snapcheck', category='exploration', design='DESIGN.md section 4 C14',
    technique='runtime monitoring of the real snapshot writer / reader / validator on generated payloads around the block boundaries, with exhaustive bit flips of header, block checksums and tail and sampled payload flips, truncations and extensions of chunk streams',
-   text=('Random payload lengths around the 2 MB block size and its multiples, random write and read segmentations, both compression settings, both format versions on the read side: bytes read back are identical, recorded size and checksum match the file, shrunk files reload as empty payload. '
+   text=('Random payload lengths around the 2 MB block size and its multiples, random write and read segmentations, both compression settings, both format versions on the read side (the writers get a private copy of the payload so that a writer scribbling over its input cannot agree with itself): bytes read back are identical, recorded size and checksum match the file, shrunk files reload as empty payload. '
          'Every flipped bit either fails the load or yields the original bytes; the stream validator accepts exactly what the writer produces for any chunking and rejects every truncation, extension and covered flip.'),
    note='the header checksum slot of files written by SnapshotWriter is zero by design (the reader skips the check): flips there are counted, not judged; input space sampled around the boundaries'),
  'C15': dict(engine='snapcheck', category='exploration', design='DESIGN.md section 4 C15',
@@ -101,16 +104,19 @@ CLAIMS = {
    text=('About 1M generated values per quick run over every persisted/wire type: decode(encode(v)) == v up to listed normalisations, encoded length <= Size()/SizeUpperLimit(), MarshalTo never writes outside the advertised size (canaries), '
          'payload codec identity for both compression settings; real frames with every single-bit flip of magic+header, sampled payload flips/bursts and truncations are rejected or delivered intact.'),
    note='input space sampled around the stated boundaries, not enumerated; CRC32 detects injected damage classes by construction (bursts <= 32 bits)'),
- 'C17': dict(engine='raftsim', category='exploration', design='DESIGN.md section 4 C17',
+ 'C17': dict(engine='raftsim+clusterrun+compcheck', category='exploration', design='DESIGN.md section 4 C17',
    technique='runtime monitoring of bounded progress in logical ticks: after a seeded fault prefix a fair schedule must reach leader + proposal + read + membership change + snapshot + catch-up within 60 election timeouts, confirmed under three re-seeded fair phases',
    text=('Bounded restatement of liveness (a finite run cannot decide "eventually"): after every explored fault prefix (loss, partitions, crashes, restarts, membership changes, transfers) the fair phase must converge within 60 election timeouts of logical ticks; '
-         'a miss counts only if three re-seeded fair phases from the same prefix all miss and every running replica operates under a membership with a running majority.'),
-   note=E1_NOTE + '; bounded progress, not liveness; quiesce, rate limiting and request expiry live outside the raft core and are not covered by E1'),
- 'C18': dict(engine='raftsim', category='exploration', design='DESIGN.md section 4 C18',
+         'a miss counts only if three re-seeded fair phases from the same prefix all miss and every running replica operates under a membership with a running majority. '
+         'E2 progress stage (real NodeHosts, PreVote/CheckQuorum/Quiesce matrix, non-voting and witness members): fault prefix, a no-quorum probe (requests must end, not hang), then a fault-free period in which a leader, completion of proposals / reads through every replica / a membership change / a snapshot request, and catch-up of every reachable replica are required within bounds counted in ticks processed per replica (NodeTick hook) and dragonboat tick-based deadlines; a directed prefix crashes the leader of witness-dependent shards between send and persist. '
+         'compcheck/msgqueue: the real server.MessageQueue against a reference model (accepted = delivered exactly once, delayed SnapshotStatus neither early nor lost), sequential and concurrent under the race detector.'),
+   note=E1_NOTE + '; bounded progress, not liveness; wall clocks are watchdogs only (firing = inconclusive); rate limiting is not driven. ' + E2_NOTE),
+ 'C18': dict(engine='raftsim+clusterrun', category='exploration', design='DESIGN.md section 4 C18',
    technique='runtime monitoring: role/kind monitors at every simulator step, inspection of every message addressed to a witness, quorum-set accounting at commit advances, elections and read confirmations',
    text=('At every step: a replica in candidate/leader role is a regular voter in its own view; campaigns only by voters; after applying its own removal a replica is not leader; every Replicate to a witness carries only metadata/config-change entries and every snapshot to a witness is a witness snapshot; '
-         'a commit advance needs a quorum of voters+witnesses holding the entry; vote and read-confirmation quorums are counted over voting members only; the witness state machine never sees Update.'),
-   note=E1_NOTE),
+         'a commit advance needs a quorum of voters+witnesses holding the entry; vote and read-confirmation quorums are counted over voting members only; the witness state machine never sees Update. '
+         'E2 roles stage: 2 voters + witness + non-voting replica on real NodeHosts with voter partitions and witness restarts: every message to the witness inspected at the send hook, the witness state machine untouched, every client API call on the witness refused, no leader event ever names the witness or the non-voting replica.'),
+   note=E1_NOTE + '. ' + E2_NOTE),
  'C19': dict(engine='logview', category='exploration', design='DESIGN.md section 4 C19',
    technique='runtime monitoring: model-based differential test of the real entryLog/inMemory over the real LogReader against a reference slice after every operation',
    text=('Random operation sequences (appends, conflicting follower appends above commit, commit advances, Update/Commit cycles with lagging apply acknowledgements, snapshot restores, LogReader compaction, in-memory resizing, late persistence acknowledgements); after each operation first/last index, term(i), ranges with size limits, entries to save and entries to apply are compared with the reference.'),
@@ -151,7 +157,7 @@ def main():
         if p in CLAIMS:
             continue
         na.append({'property_id': p, 'reason': NOT_YET.get(p, 'check under construction in this session (DESIGN.md section 7 build order); not claimed until its monitor is built and silent on the unchanged tree')})
-    commits = subprocess.run("git -C /repo log --format=%H --grep='^verif hooks'", shell=True, capture_output=True, text=True).stdout.split()
+    commits = subprocess.run("git -C /repo log --format=%H --grep='^verif hook'", shell=True, capture_output=True, text=True).stdout.split()
     m = {
         'version': 1,
         'setup_cmd': './check --setup',
@@ -165,10 +171,11 @@ def main():
         'engines': [
             {'name': 'raftsim', 'path': 'harness/raftsim, harness/cmd/raftsim', 'serves_properties': ['C01', 'C02', 'C03', 'C06', 'C07', 'C17', 'C18'], 'kind_free_text': 'E1: deterministic single-goroutine simulation of a shard of real raft.Peer + LogReader + rsm.StateMachine replicas with global-view monitors'},
             {'name': 'codeccheck', 'path': 'harness/cmd/codeccheck', 'serves_properties': ['C13'], 'kind_free_text': 'E4: codec round-trip / size-bound / frame corruption monitor'},
-            {'name': 'clusterrun', 'path': 'harness/cluster, harness/cmd/clusterrun', 'serves_properties': ['C01', 'C02', 'C04', 'C08', 'C11', 'C12', 'C20'], 'kind_free_text': 'E2: real NodeHosts in-process, fault injecting transport, strict in-memory FS with power-loss crashes, instrumented state machines, request watchers'},
+            {'name': 'clusterrun', 'path': 'harness/cluster, harness/cmd/clusterrun', 'serves_properties': ['C01', 'C02', 'C04', 'C05', 'C08', 'C11', 'C12', 'C17', 'C18', 'C20'], 'kind_free_text': 'E2: real NodeHosts in-process, fault injecting transport, strict in-memory FS with power-loss crashes, instrumented state machines, request watchers'},
             {'name': 'rsmcheck', 'path': 'harness/cmd/rsmcheck', 'serves_properties': ['C05', 'C07', 'C08', 'C16'], 'kind_free_text': 'E5: real rsm.StateMachine / snapshotter driven with synthetic streams, reference models, twins, crash enumeration'},
-            {'name': 'storecheck', 'path': 'harness/cmd/storecheck', 'serves_properties': ['C09', 'C10'], 'kind_free_text': 'E3: real ILogDB implementations against a reference model, crash and error injection'},
+            {'name': 'storecheck', 'path': 'harness/cmd/storecheck', 'serves_properties': ['C04', 'C09', 'C10'], 'kind_free_text': 'E3: real ILogDB implementations against a reference model, crash and error injection'},
             {'name': 'snapcheck', 'path': 'harness/cmd/snapcheck', 'serves_properties': ['C14', 'C15'], 'kind_free_text': 'E4: snapshot file reader/writer/validator and chunk receiver monitors'},
+            {'name': 'compcheck', 'path': 'harness/cmd/compcheck', 'serves_properties': ['C17'], 'kind_free_text': 'component monitors: server.MessageQueue against a reference delivery model'},
             {'name': 'logview', 'path': 'harness/cmd/logview', 'serves_properties': ['C19'], 'kind_free_text': 'E6: entryLog + LogReader against a reference slice'},
         ],
         'checks': checks,
